@@ -8,8 +8,8 @@ from gen import i2_line, e_scalar, e_single, e_array, e_ainto, e_into
 from vlib import lin_bracket, Result
 
 ID = "C04"
-LEAN_MODULES = ["NdInterp.Props.C04", "NdInterp.Props.RatTie", "NdInterp.Props.FormulaTie.Lin", "NdInterp.Props.FormulaTie.Bil", "NdInterp.Props.FormulaTie.Rng"]
-THEOREM_FILES = [("NdInterp/Props/C04.lean", "C04_"), ("NdInterp/Props/FormulaTie/Lin.lean", "FT_lin_calc_frac"), ("NdInterp/Props/FormulaTie/Bil.lean", "FT_bil_"), ("NdInterp/Props/FormulaTie/Lin.lean", "FT_idx_"), ("NdInterp/Props/FormulaTie/Rng.lean", "FT_rng_")]
+LEAN_MODULES = ["NdInterp.Props.C04", "NdInterp.Props.RatTie", "NdInterp.Props.FormulaTie.Lin", "NdInterp.Props.FormulaTie.Bil", "NdInterp.Props.FormulaTie.Rng", "NdInterp.Props.FormulaTie.Ctl"]
+THEOREM_FILES = [("NdInterp/Props/C04.lean", "C04_"), ("NdInterp/Props/FormulaTie/Lin.lean", "FT_lin_calc_frac"), ("NdInterp/Props/FormulaTie/Bil.lean", "FT_bil_"), ("NdInterp/Props/FormulaTie/Lin.lean", "FT_idx_"), ("NdInterp/Props/FormulaTie/Rng.lean", "FT_rng_"), ("NdInterp/Props/FormulaTie/Ctl.lean", "FT_ctl_")]
 RULE = ("Bilinear (no extrapolation) at Q, exact: grids 2x2..12x9 incl. non-square, all axis kinds, 0..2 trailing axes "
         "(data rank 2..4, static and dynamic, all layouts), default / explicit axes, every entry point; queries at nodes, on "
         "grid lines, on cell borders, random. f64 runs against the exact blend with 3x the proved calc_frac bound. "
